@@ -228,6 +228,11 @@ func (o *FilterOptimizer) optimizeBetweenExpr(e *BinaryOpExpr) *ScanType {
 	}
 
 	if field == KeyKW && canUseRange {
+		if bytes.Compare(lower, upper) > 0 {
+			// No key lies between a lower boundary and a smaller upper
+			// boundary, and the range combinators expect start <= end
+			return &ScanType{EMPTY, nil}
+		}
 		return &ScanType{RANGE, [][]byte{lower, upper}}
 	}
 	return &ScanType{FULL, nil}
